@@ -639,6 +639,9 @@ def fn_signature(prog, n):
         if isinstance(c, dict) and c.get('kind') == 'ParmVarDecl':
             t, is_ref, is_const = parse_type(node_type(c))
             t = prog.fix_type(t)
+            if t[0] == 'eigdyn' and c.get('name') in (prog.options.get('dyn_locals') or {}):
+                shp = prog.options['dyn_locals'][c.get('name')]
+                t = ('eig', t[1], shp[0], shp[1])
             if is_ref and (is_scalar(t) or t[0] == 'string') and is_const:
                 kinds.append('value')
             elif is_ref:
@@ -1078,6 +1081,10 @@ class FnTranslator:
                 t, is_ref, is_const = parse_type(node_type(c))
                 t = self.fix_type(t)
                 name = c.get('name', '__unnamed%d' % len(params))
+                if t[0] == 'eigdyn' and name in (self.prog.options.get('dyn_locals') or {}):
+                    shp = self.prog.options['dyn_locals'][name]
+                    t = ('eig', t[1], shp[0], shp[1])      # bounded stand-in: a dynamic-size Eigen parameter with the size the spec binds it to
+                    self.rule('dynamic-size Eigen parameter %s declared with the size the spec binds it to (bounded stand-in)' % name)
                 if is_ref and (is_scalar(t) or t[0] == 'string') and is_const:
                     self.rule('param: const scalar reference passed by value')
                     self.vars[c['id']] = (name, t, False)
@@ -1920,6 +1927,16 @@ class FnTranslator:
         a0 = self.strip(a)
         if is_scalar(t) or t[0] == 'string':
             return self.expr(a)
+        if t[0] == 'eigdyn':
+            # a dynamic-size Eigen argument whose size is bound (a bound member / parameter / local, or an expression of such): its value
+            ev = self.eig(a)
+            t2 = ('eig', ev.st, ev.rows, ev.cols)
+            if ev.lv is not None:
+                return ev.lv[1] if ev.lv[0] == 'deref' else ('addr', ev.lv, ('ptr', t2))
+            nm = self.tmp(t2)
+            self.pre.append(('decl', nm, t2, None))
+            self.pre += self.eig_store(('var', nm, t2), t2, ev)
+            return ('addr', ('var', nm, t2), ('ptr', t2))
         if t[0] in ('eig', 'struct', 'vector', 'optional', 'list', 'map', 'queue'):
             # pass address of lvalue, or of a temporary holding the value
             try:
